@@ -127,3 +127,19 @@ func DebugReach(p *Prog, a *Anchors, name string) {
 		}
 	}
 }
+
+// DebugRespStores lists stores into fields of *http.Response in functions reachable from RoundTrip.
+func DebugRespStores(p *Prog, a *Anchors) {
+	for _, fn := range p.RepoFuncs {
+		if !a.Reach[fn] {
+			continue
+		}
+		instrsOf(fn, func(in ssa.Instruction) {
+			if st, ok := in.(*ssa.Store); ok {
+				if fa, ok := st.Addr.(*ssa.FieldAddr); ok && isHTTPResponsePtr(fa.X.Type()) {
+					fmt.Println(p.ShortName(fn), p.InstrPos(in), fieldName(fa.X.Type(), fa.Field), "base:", fmt.Sprintf("%T", fa.X))
+				}
+			}
+		})
+	}
+}
